@@ -135,7 +135,7 @@ def sandbox_base() -> Path:
     global _BASE
     if _BASE is None or _BASE[0] != os.getpid():
         root = "/dev/shm" if os.path.isdir("/dev/shm") and os.access("/dev/shm", os.W_OK) else "/tmp"
-        p = Path(root) / f"cv{os.getpid()}"
+        p = Path(root) / f"cv{os.getpid():07d}"
         if p.exists():
             shutil.rmtree(p)
         p.mkdir()
